@@ -49,11 +49,12 @@ def param_task(task):
     real = {"beta": cm.beta, "bernoulli": cm.bernoulli, "gamma": cm.gamma}
     rng = np.random.default_rng([task["seed"], task["shard"], 13])
     etas = [1e-300, 1e-12, 1e-3, 0.05, 0.3, 0.5, 0.9, 0.999, 1 - 1e-12]
+    pool = {}
     try:
         for c in range(task["count"]):
             a = float(10 ** rng.uniform(-2, 1.5))
             b = float(10 ** rng.uniform(-2, 1.5))
-            if c % 5 == 0:
+            if c % 5 == 0 or c % 4 == 2:
                 a, b = 0.01, 0.01  # the run command's prior
             n = int(rng.integers(1, 60))
             if c % 7 == 6:
@@ -70,7 +71,16 @@ def param_task(task):
                     setattr(cm, nm, Proxy(real[nm], nm, log, script))
                 case = {"a": a, "b": b, "alpha": alpha, "K": K, "n": n, "eta": eta, "bernoulli": bern}
                 try:
-                    sampler = cm.GammaPriorConcentrationSampler(a, b, rng)
+                    # call history: half of the updates are made by a long-lived sampler object (one per prior, as one chain
+                    # keeps one) that has already served other (K, n); the other half by a fresh one
+                    if c % 2 == 0:
+                        if (a, b) not in pool:
+                            pool[(a, b)] = cm.GammaPriorConcentrationSampler(a, b, rng)
+                        else:
+                            part.count("updates_by_a_sampler_that_served_other_counts_before")
+                        sampler = pool[(a, b)]
+                    else:
+                        sampler = cm.GammaPriorConcentrationSampler(a, b, rng)
                     out = sampler.sample(alpha, K, n)
                 finally:
                     for nm in real:
